@@ -21,6 +21,7 @@ import (
 	"gitlab.com/yawning/obfs4.git/common/csrand"
 	"gitlab.com/yawning/obfs4.git/common/ntor"
 	"gitlab.com/yawning/obfs4.git/transports"
+	"gitlab.com/yawning/obfs4.git/transports/base"
 	"gitlab.com/yawning/obfs4.git/transports/obfs4"
 	"gitlab.com/yawning/obfs4.git/transports/obfs4/framing"
 
@@ -219,6 +220,42 @@ func (r *Reader) Drain(next func() int) (blocked bool) {
 	}
 }
 
+// ReadOnce issues exactly one Read with an n-byte buffer (unless one is already outstanding) and
+// reports whether it returned; the result is accumulated like in Drain.
+func (r *Reader) ReadOnce(n int) (finished bool) {
+	if r.Err != nil || r.Panic != nil || r.Stuck {
+		return true
+	}
+	if r.op == nil {
+		if cap(r.buf) < n {
+			r.buf = make([]byte, n)
+		}
+		b := r.buf[:n]
+		r.bufLen = n
+		r.op = r.SC.Start(func() { r.n, r.err = r.Conn.Read(b) })
+	}
+	fin, stuck := r.SC.WaitT(r.op, 20*time.Second)
+	if stuck {
+		r.Stuck = true
+		return false
+	}
+	if !fin {
+		return false
+	}
+	op := r.op
+	r.op = nil
+	r.Reads++
+	if op.Panic != nil {
+		r.Panic = op.Panic
+		return true
+	}
+	r.Got = append(r.Got, r.buf[:r.n]...)
+	if r.err != nil {
+		r.Err, r.ErrN, r.ErrBuf = r.err, r.n, r.bufLen
+	}
+	return true
+}
+
 // Resume forgets the error the last Drain stopped at, so that a caller that keeps reading after
 // an error can be simulated. The errors seen so far are kept in Errs.
 func (r *Reader) Resume() {
@@ -302,6 +339,36 @@ func isF2(p interface{}) bool {
 // Setup performs the handshake of two real endpoints. Randomness comes from a RandTape seeded
 // with p.TapeSeed (crypto/rand.Reader and csrand.Reader are replaced; cases must run one at a time).
 func Setup(p Params, o SetupOpts) (*Pair, error) {
+	f, err := NewFactory(p)
+	if err != nil {
+		return nil, err
+	}
+	cargs, err := f.ParseArgs()
+	if err != nil {
+		f.Close()
+		return nil, err
+	}
+	pr, err := f.Connect(cargs, o)
+	if err != nil {
+		f.Close()
+		return nil, err
+	}
+	pr.dir = f.dir // the pair owns the factory's state directory
+	return pr, nil
+}
+
+// Factory is one real obfs4 server factory (a bridge) with the matching client factory; several
+// connections can be made through it in one process (cross-connection histories).
+type Factory struct {
+	P    Params
+	Tape *vlib.RandTape
+	sf   base.ServerFactory
+	cf   base.ClientFactory
+	dir  string
+}
+
+// NewFactory installs the rand tape of p (process-global) and creates the factories.
+func NewFactory(p Params) (*Factory, error) {
 	initOnce.Do(func() {
 		if err := transports.Init(); err != nil {
 			panic(err)
@@ -335,12 +402,30 @@ func Setup(p Params, o SetupOpts) (*Pair, error) {
 		os.RemoveAll(dir)
 		return nil, err
 	}
-	cargs, err := cf.ParseArgs(sf.Args())
+	return &Factory{P: p, Tape: tape, sf: sf, cf: cf, dir: dir}, nil
+}
+
+// ParseArgs parses the bridge line into a client args object (this draws the client's ntor
+// session key pair); the same object may be dialled several times.
+func (f *Factory) ParseArgs() (interface{}, error) {
+	cargs, err := f.cf.ParseArgs(f.sf.Args())
 	if err != nil {
-		os.RemoveAll(dir)
 		return nil, fmt.Errorf("ParseArgs: %v", err)
 	}
-	pr := &Pair{P: p, Tape: tape, dir: dir}
+	return cargs, nil
+}
+
+// Close removes the factory's state directory.
+func (f *Factory) Close() {
+	if f.dir != "" {
+		os.RemoveAll(f.dir)
+	}
+}
+
+// Connect makes one connection through the factory with the given client args object.
+func (f *Factory) Connect(cargs interface{}, o SetupOpts) (*Pair, error) {
+	p, tape, sf, cf := f.P, f.Tape, f.sf, f.cf
+	pr := &Pair{P: p, Tape: tape}
 	cc, sc := vlib.NewScriptConn(), vlib.NewScriptConn()
 	pr.Conn = [2]*vlib.ScriptConn{cc, sc}
 
@@ -627,6 +712,19 @@ func (p *Pair) Reader(dir int) *Reader { return p.Rd[dir] }
 func (p *Pair) Buffered(dir int) (rxBuf, decoded int) {
 	a, b, _ := obfs4.VerifBufferSizes(p.EP[receiver(dir)])
 	return a, b
+}
+
+// CloseEndpoints calls Close() on both obfs4 endpoints (what the relay does when a connection
+// ends), not merely on the harness's conns.
+func (p *Pair) CloseEndpoints() {
+	for _, e := range p.EP {
+		if e != nil {
+			func() {
+				defer func() { _ = recover() }()
+				e.Close()
+			}()
+		}
+	}
 }
 
 // Close releases blocked goroutines and the state directory.
